@@ -85,10 +85,7 @@ class pcomp(object):
     def derived(self):
         """(:class:`~numpy.ndarray`) The derived variables.
         """
-        derived_data = np.dot(self._array, self.coefficients)
-        if self._standardize:
-            derived_data += self._xstd
-        return derived_data
+        return np.dot(self._array, self.coefficients)
 
     @lazyproperty
     def variance(self):
